@@ -133,3 +133,93 @@ Lemma reach_deleted_stays_deleted cp ops0 o k ops :
   forallb (fun o => negb (is_put_of k o)) ops = true ->
   snd (step (fst (run (fst (step c o)) ops)) (Get k)) = OVal None [].
 Proof. intros Hcp Hwf0 Hwf Hwfs c. apply deleted_stays_deleted; auto. now apply invariant_all_histories. Qed.
+
+(* ------------------------------------------------------------------ *)
+(* eviction or deletion: whatever was handed to the callback is gone *)
+
+Lemma in_robs_key l k x : In (k, x) (robs l) -> In k (map fst l).
+Proof.
+  unfold robs. intro H. apply in_map_iff in H as [p [Hp Hin]].
+  inversion Hp; subst. apply in_map_iff. eauto.
+Qed.
+
+Lemma nodup_split_absent (l : list (Z * val)) n k :
+  NoDup (map fst l) -> In k (map fst (skipn n l)) -> absent (firstn n l) k.
+Proof.
+  intros Hnd Hin Hin'. rewrite <- (firstn_skipn n l), map_app in Hnd.
+  revert Hnd Hin Hin'. generalize (map fst (firstn n l)) (map fst (skipn n l)).
+  intros a b. induction a as [|y a IH]; simpl; intros Hnd Hb Ha; [contradiction|].
+  inversion Hnd as [|? ? Hn Hd]; subst. destruct Ha as [->|Ha]; auto.
+  apply Hn. apply in_or_app. auto.
+Qed.
+
+Lemma ref_evict_reported_absent fuel cp b l needed ev l' res cbs' k x :
+  NoDup (map fst l) -> ref_evict fuel cp b l needed ev [] = (l', res, cbs') ->
+  In (k, x) cbs' -> absent l' k.
+Proof.
+  intros Hnd H Hin. apply ref_evict_spec in H as [n [_ [-> [-> _]]]]. simpl in Hin.
+  apply in_robs_rev in Hin. apply in_robs_key in Hin. apply nodup_split_absent; [assumption|]. rewrite rev_involutive in Hin. exact Hin.
+Qed.
+
+(* an operation that is not a Put of k and hands (k, x) to the delete
+   callback — an eviction or a deletion — leaves k not resident *)
+Lemma ref_reported_absent r o k x :
+  NoDup (map fst (rl r)) -> is_put_of k o = false ->
+  In (k, x) (obs_cbs (snd (ref_step r o))) ->
+  absent (rl (fst (ref_step r o))) k.
+Proof.
+  intros Hnd Hp Hin.
+  destruct o as [k' v'|k'|k'|k'| | | | | |id|id];
+    [cbn [ref_step is_put_of] in * | simpl in * ..]; try contradiction.
+  - assert (k' <> k) as Hne by lia.
+    destruct (mem (vid v') (rbad r)); [simpl in Hin; contradiction|].
+    destruct (vsz v' >? rcap r); [simpl in Hin; contradiction|].
+    assert (forall l1, NoDup (map fst l1) ->
+      In (k, x) (obs_cbs (snd
+        (let '(l2, o, cbs) := ref_evict (S (length l1)) (rcap r) (rbad r) l1 (vsz v') false [] in
+         match o with Some ev => (rmk r ((k', v') :: l2), OPut ev cbs) | None => (rmk r l2, OErr cbs) end))) ->
+      absent (rl (fst
+        (let '(l2, o, cbs) := ref_evict (S (length l1)) (rcap r) (rbad r) l1 (vsz v') false [] in
+         match o with Some ev => (rmk r ((k', v') :: l2), OPut ev cbs) | None => (rmk r l2, OErr cbs) end))) k) as Hev.
+    { intros l1 Hnd1 Hin1.
+      destruct (ref_evict (S (length l1)) (rcap r) (rbad r) l1 (vsz v') false []) as [[l2 o] cbs] eqn:Ev.
+      assert (absent l2 k) as Ha2.
+      { eapply ref_evict_reported_absent; eauto. destruct o; exact Hin1. }
+      destruct o; simpl; auto. now apply absent_cons. }
+    destruct (rfind (rl r) k') as [ov|].
+    + destruct (mem (vid ov) (rbad r)); [simpl in Hin; contradiction|]. apply Hev; auto.
+      unfold rremove. now apply NoDup_map_filter.
+    + apply Hev; auto.
+  - destruct (rfind (rl r) k') as [v'|]; simpl in Hin; contradiction.
+  - unfold ref_del in *. destruct (rfind (rl r) k') as [v'|]; simpl in *; [|contradiction].
+    destruct (mem (vid v') (rbad r)); simpl in *; [contradiction|].
+    destruct Hin as [He|[]]. inversion He; subst. apply rremove_notin.
+  - unfold ref_del in *. destruct (rfind (rl r) k') as [v'|]; simpl in *; [|contradiction].
+    destruct (mem (vid v') (rbad r)); simpl in *; [contradiction|].
+    destruct Hin as [He|[]]. inversion He; subst. apply rremove_notin.
+Qed.
+
+Lemma reported_then_missing c o k x ops :
+  inv c -> wf_op o -> Forall wf_op ops ->
+  is_put_of k o = false -> In (k, x) (obs_cbs (snd (step c o))) ->
+  forallb (fun o => negb (is_put_of k o)) ops = true ->
+  snd (step (fst (run (fst (step c o)) ops)) (Get k)) = OVal None [].
+Proof.
+  intros Hi Hwf Hwfs Hp Hc Hnp.
+  pose proof (R_abs c Hi) as HR.
+  destruct (step_sim _ _ _ HR Hwf) as [HR1 Hm1].
+  apply obs_match_cbs in Hm1. rewrite Hm1 in Hc.
+  assert (NoDup (map fst (rl (abs_state c)))) as Hnd.
+  { simpl. rewrite keys_abs. apply (inv_keys _ Hi). }
+  pose proof (ref_reported_absent _ _ _ _ Hnd Hp Hc) as Ha1.
+  destruct (run_sim ops _ _ HR1 Hwfs) as [HR2 _].
+  eapply get_absent; eauto. now apply ref_run_absent.
+Qed.
+
+Lemma reach_reported_then_missing cp ops0 o k x ops :
+  0 <= cp < two64 -> Forall wf_op ops0 -> wf_op o -> Forall wf_op ops ->
+  let c := fst (run (empty cp) ops0) in
+  is_put_of k o = false -> In (k, x) (obs_cbs (snd (step c o))) ->
+  forallb (fun o => negb (is_put_of k o)) ops = true ->
+  snd (step (fst (run (fst (step c o)) ops)) (Get k)) = OVal None [].
+Proof. intros Hcp Hwf0 Hwf Hwfs c. apply reported_then_missing; auto. now apply invariant_all_histories. Qed.
